@@ -158,7 +158,8 @@ class Check(BaseCheck):
                 k += 1
                 if self.quick and (k % len(seeds)) != si % len(seeds) and len(seq) > 1:
                     continue     # quick tier: spread the longer sequences over the seeds
-                case = dict(kind="tri", v=v, t=t, ops=seq, name=name)
+                case = dict(kind="tri", v=v, t=t, ops=seq, name=name, pres=gen.PRES[(si + len(seq)) % len(gen.PRES)])
+                gen.use(case)
                 res = core.run_limited(run_tri_history, (v, t, seq), 60.0)
                 stats.case(core.mesh_key(v, t, [op_token(o) for o in seq]), cls=["seed:" + name, "len:%d" % len(seq)] + ["op:" + o[0] for o in seq],
                            sample=dict(seed=name, ops=[op_token(o) for o in seq]))
@@ -198,6 +199,7 @@ class Check(BaseCheck):
                         break
                 if len(fails) > 6:
                     return fails
+        gen.use(None)
         # tetra meshes
         tv, tts = gen.cube5()
         rng = gen.rng_for(self.seed, "c20tet")
@@ -240,9 +242,9 @@ class Check(BaseCheck):
 
     # ---- oracle
     def search_cases(self):
-        for name, v, t in self.seeds():
+        for si, (name, v, t) in enumerate(self.seeds()):
             for seq in self.sequences():
-                yield dict(kind="tri", v=v, t=t, ops=seq, name=name)
+                yield dict(kind="tri", v=v, t=t, ops=seq, name=name, pres=gen.PRES[(si + len(seq)) % len(gen.PRES)])
         tv, tts = gen.cube5()
         vf = np.vstack([[[5.0, 5, 5]], tv, [[7.0, 7, 7]]])
         for n in range(1, 4):
